@@ -482,6 +482,7 @@ var mtpCoq = map[string]string{
 	transport.MediaTypeV2EncryptedEnvelope:                   "M_V2Enc",
 	transport.MediaTypeV2PlaintextPayload:                    "M_V2Plain",
 	transport.MediaTypeDIDCommV2Profile:                      "M_DIDCommV2",
+	transport.MediaTypeV1EncryptedEnvelope:                   "M_V1Enc",
 }
 
 func coqMtp(s string) string {
@@ -505,7 +506,8 @@ func effective(accept []string, dflt string) string {
 
 	for i := len(accept) - 1; i >= 0; i-- {
 		switch accept[i] {
-		case transport.MediaTypeV2EncryptedEnvelopeV1PlaintextPayload, transport.MediaTypeAIP2RFC0587Profile:
+		case transport.MediaTypeV2EncryptedEnvelopeV1PlaintextPayload, transport.MediaTypeAIP2RFC0587Profile,
+			transport.MediaTypeV1EncryptedEnvelope:
 			return accept[i]
 		}
 	}
@@ -1733,7 +1735,10 @@ func (p *pool) randWrap(r *hx.Rng, viaMed bool) WrapCase {
 	if r.Intn(2) == 0 {
 		// a destination that lists several media type profiles (and ones the dispatcher does not know); the sender's
 		// default is used when none is known
-		pool := append(append([]string{}, names...), "application/unknown", "didcomm/v3")
+		// ("application/didcomm-enc-env" takes part in the selection; when it would be selected the packager falls back
+		// to the framework's primary packer, which is configuration, so such lists get a later type that overrides it)
+		pool := append(append([]string{}, names...), "application/unknown", "didcomm/v3", transport.MediaTypeV1EncryptedEnvelope,
+			transport.MediaTypeV1EncryptedEnvelope)
 		na := r.Intn(5)
 		c.Accept = []string{}
 
@@ -1743,6 +1748,12 @@ func (p *pool) randWrap(r *hx.Rng, viaMed bool) WrapCase {
 
 		c.Default = names[r.Intn(len(names))]
 		c.Profile = effective(c.Accept, c.Default)
+
+		if c.Profile == transport.MediaTypeV1EncryptedEnvelope {
+			c.Accept = append(c.Accept, []string{transport.MediaTypeAIP2RFC0587Profile, transport.MediaTypeDIDCommV2Profile,
+				transport.MediaTypeV2EncryptedEnvelopeV1PlaintextPayload}[r.Intn(3)])
+			c.Profile = effective(c.Accept, c.Default)
+		}
 
 		if len(c.Accept) == 0 {
 			c.Accept = []string{"application/unknown"}
